@@ -76,18 +76,18 @@ prop(
 prop(
     "C01",
     level_text="Refinement of the RFC 8878 transcription (Zstd.Spec, validated against libzstd on every run) by the model of the decoder, proved component by component for all inputs: block headers (all byte patterns; table and guard from the source), window descriptors (all descriptors; operators from the source), offset-history step = RFC rule for every offset value/history, offset values >= 1; code tables = RFC (C14), FSE (C12), Huffman (C13), sequence execution and the composed frame theorem as far as merged (C01_full stays visible; partial). The executable model is replayed against the real decoder on libzstd frames of every level/window/flag/flush pattern, ruzstd frames, and synthetic frames using features no compressor emits on demand (all sequence-count encodings, repeat offsets in both literal-length cases, offsets at exactly the window distance, every header layout), under several drivers; oracles: original data, libzstd, reference executor.",
-    engines=[{"name": "spec"}, {"name": "dec"}, {"name": "hostile"}, {"name": "bits"}, {"name": "fse"}, {"name": "huf"}, {"name": "ring"}],
+    engines=[{"name": "spec"}, {"name": "dec"}, {"name": "hostile"}, {"name": "blk"}, {"name": "bits"}, {"name": "fse"}, {"name": "huf"}, {"name": "ring"}],
     # the decoder is only as right as its components: a wrong bit read, FSE/Huffman table or window copy found by a
     # component engine is a violation of C01 as well
     also_reports={"bits": ["C12"], "fse": ["C12"], "huf": ["C13"], "ring": ["C04"]},
-    modelled="frame/block plumbing, sequence execution and the decode buffer (abstract content) are hand-written mirrors of the Rust; literals and sequence DECODING in the executable model currently go through the Spec functions (the faithful FSE/Huffman mirrors are verified separately in C12/C13)",
+    modelled="frame/block plumbing, sequence execution and the decode buffer (abstract content) are hand-written mirrors of the Rust; the frame-level executable model decodes literals/sequences through the Spec functions, while Model/BlockDecode.lean is the FAITHFUL block decoder (real literals-header parser, Huffman decoder, FSE tables, reversed bit reader, sequence loop: every leniency and error variant, state kept on error paths) compared block by block with the real code on valid and deliberately broken blocks (engine blk)",
     assumptions=["Zstd.Spec is a faithful transcription of RFC 8878 (validated against libzstd 1.5.7 frames on every run, not proved against the English text)"],
 )
 
 prop(
     "C03",
     level_text="Every Rust panic site the frame-level model can reach is a Fault value; theorems (all inputs, all states): execute_sequences never faults because the only panic site (offset_value - 3 underflow) needs an offset value 0 which no decoded sequence carries (decodeSeqLoop_ov_pos, executeSequences_no_fault); frame-level no-fault/fuel theorems and the entropy-stage no-fault theorems (C12/C13) and the raw-pointer window (C04) complete the picture — C03_full stays visible; partial. Tie to the code: engine hostile runs every decoding entry point (decode_blocks loops, StreamingDecoder, decode_all_to_vec, decode_from_to, Dictionary::decode_dict, decoding with hostile dictionaries) on the repo's fuzz artefacts, structure-aware hostile frames (one field broken on purpose per frame), mutated libzstd frames and random bytes under catch_unwind, a watchdog deadline and a counting allocator, then resets the same decoder and requires it to behave like a fresh one.",
-    engines=[{"name": "hostile"}, {"name": "dec"}],
+    engines=[{"name": "hostile"}, {"name": "dec"}, {"name": "blk"}],
     modelled="see C01; panics inside the entropy decoders are covered by C12/C13 models, raw memory by C04",
     assumptions=["wall-clock time is represented by fuel (loop iterations) in the theorems and by a watchdog deadline in the harness", "allocation failure aborts the process and is outside the model"],
 )
